@@ -1,4 +1,4 @@
 SPECIFICATION Spec
-CONSTANTS MaxLen = 0  MaxLen2 = 0  MaxLen3 = 0  MaxLen4 = 3  Shrinking = FALSE  MaxPass = 12  Origin = 252
+CONSTANTS MaxLen = 0  MaxLen2 = 0  MaxLen3 = 0  MaxLen4 = 3  MaxLen5 = 0  Shrinking = FALSE  MaxPass = 12  Origin = 252
 CONSTANT PruneStale <- NoPrune
 INVARIANT FixedPoint
